@@ -3,7 +3,7 @@ CONFIG = {
     "audit": "BsVerif/Audit/C14.lean",
     "bsv_cmd": "c14",
     "technique": "Lean 4 invariant proof over all add/remove/thread-creation (kernel spawn + the two tracer notifications in either order)/hit/end-of-scope/restart/exit+rerun histories of a model of the DR7/DR6 packing and of the watchpoint registry (constants re-extracted from register.rs / watchpoint.rs on every run) + differential correspondence with the real DebugControlRegister / DebugStatusRegister and with live debuggee histories (PTRACE_PEEKUSER of every thread) + independent Intel-layout oracle",
-    "level_text": "Proved in Lean for every history: in every thread L_i is set iff an active watchpoint owns slot i and then DR_i/RW_i/LEN_i are its address/condition/size in the Intel encoding, G bits and GE clear, LE iff non-empty, at most four, unique slot owners, lowest free slot reused, no stale enable bit after removal, a new thread is equipped by whichever of its two notifications (parent's PTRACE_EVENT_CLONE, child's PTRACE_EVENT_STOP) the tracer handles first and the other one changes nothing, duplicates refused without side effect, the index loop of clear_local_disable_global leaves exactly the unscoped watchpoints for EVERY registry content (live and dead process) and restart / exit+rerun re-arm exactly those in the new process, DR6 hit -> slot; get/set field lemmas for all four slots. The refusal-without-side-effect clause (C14_refused_no_side_effect) is proved at full strength; it was false of the original code for a fifth watchpoint on a scoped local (companion breakpoint leaked), which has been repaired in the repository (fix commit e25b3f2: the debug register is taken before the companion is created); the former witness is replayed on the real code by corpus/C14 and by every seeded run, a regression being a VIOLATION. Model tied to the code on every run by exhaustive (slot, cond, size) x prior-image-class execution of the real register operations and by live histories on a real debuggee whose debug registers the harness reads itself after every command, including thread creations with the child's first stop delivered ahead of the clone event (the harness's waitpid interposer re-orders the two genuine kernel statuses) and restarts / exit+rerun with watchpoints on locals still set.",
+    "level_text": "Proved in Lean for every history: in every thread L_i is set iff an active watchpoint owns slot i and then DR_i/RW_i/LEN_i are its address/condition/size in the Intel encoding, G bits and GE clear, LE iff non-empty, at most four, unique slot owners, lowest free slot reused, no stale enable bit after removal, a new thread is equipped by whichever of its two notifications (parent's PTRACE_EVENT_CLONE, child's PTRACE_EVENT_STOP) the tracer handles first and the other one changes nothing, duplicates refused without side effect, the index loop of clear_local_disable_global leaves exactly the unscoped watchpoints for EVERY registry content (live and dead process) and restart / exit+rerun re-arm exactly those in the new process, DR6 hit -> slot; get/set field lemmas for all four slots. The refusal-without-side-effect clause (C14_refused_no_side_effect) is proved at full strength; it was false of the original code for a fifth watchpoint on a scoped local (companion breakpoint leaked), which has been repaired in the repository (fix commit 0211559: the debug register is taken before the companion is created); the former witness is replayed on the real code by corpus/C14 and by every seeded run, a regression being a VIOLATION. Model tied to the code on every run by exhaustive (slot, cond, size) x prior-image-class execution of the real register operations and by live histories on a real debuggee whose debug registers the harness reads itself after every command, including thread creations with the child's first stop delivered ahead of the clone event (the harness's waitpid interposer re-orders the two genuine kernel statuses) and restarts / exit+rerun with watchpoints on locals still set.",
     "level_note": "Trusted: Lean kernel + 3 standard axioms; tools/tables/dr.py (regex extraction of the layout constants); model<->code tie is exhaustive over the operation arguments and sampled over prior images / histories; hardware delivery of data breakpoints (every write stops once, old/new value) is sampled on live runs, not a theorem; kernel behaviour for a new thread's debug registers (cleared) and ESRCH paths are environment assumptions.",
     "shrinkable": False,
     "runs": {"quick": [{"n": 3000}], "thorough": [{"n": 60000, "extra": ["--live-sessions", "60"]}]},
